@@ -511,6 +511,46 @@ def run(prog, rep):
     compute_before_open(prog, rep, [vc.lookup_method("write_to_file")], "ORDER-1")
     from .rules_lints import class_level_mutables
     class_level_mutables(prog, rep, "CLS-1", ("VersionConverter",))
+    rep.rule("SAME-1", "_replace_same_name_entities renames clashing names at every depth: its Section loop iterates <root>.iter('section') (all "
+                       "descendants; findall / iterchildren / a plain loop over the root visit the top level only), and the Property loop visits "
+                       "the Properties of that Section (iter + parent test, findall or iterchildren)")
+    rs = prog.cls("VersionConverter").lookup_method("_replace_same_name_entities")
+    if rs is None:
+        raise AnalysisError("VersionConverter._replace_same_name_entities vanished")
+    sx = Expander(rs, only_locations=False)
+    sec_loops = []
+    for fx in private_closure(rs):
+        for lp in [x for x in walk_no_nested(fx.node) if isinstance(x, ast.For)]:
+            t = (sx.text(lp.iter) if fx is rs else unparse(lp.iter))
+            if re.search(r"['\"]section['\"]", t):
+                sec_loops.append((fx, lp, t))
+    rep.floor("SAME-1", len(sec_loops), 1, "loops over section elements in _replace_same_name_entities")
+    for fx, lp, t in sec_loops:
+        rep.check(bool(re.search(r"\.(iter|iterdescendants|getiterator)\(\s*['\"]section['\"]", t)), "SAME-1", "Sections of every depth are visited", t[:50],
+                  "_replace_same_name_entities visits the Sections with `%s`: only the direct children of the root - clashing names below the top "
+                  "level stay, and the second of two equal names is lost when the converted file is loaded" % t[:60], where(fx, lp),
+                  witness="two sub-Sections 'rec' under one Section in a v1.0 file: one of them is missing from the converted document")
+
+    rep.rule("DICT-2", "the dictionary front end (_parse_dict_sections / _parse_dict_properties / _parse_dict_values and what they call) abandons no "
+                       "item of its input lists: no continue / break inside their loops. What is not exported is dropped later by _convert, which "
+                       "logs it (LOG-1); an item skipped here disappears without a log entry - and only for JSON / YAML sources")
+    n_loops = 0
+    for nm in ("_parse_dict_sections", "_parse_dict_properties", "_parse_dict_values"):
+        f0 = prog.cls("VersionConverter").lookup_method(nm)
+        if f0 is None:
+            raise AnalysisError("VersionConverter.%s vanished" % nm)
+        for fx in private_closure(f0):
+            if fx.name in ("_log",):
+                continue
+            for lp in [x for x in walk_no_nested(fx.node) if isinstance(x, (ast.For, ast.While))]:
+                n_loops += 1
+                jumps = [y for b in lp.body for y in ast.walk(b) if isinstance(y, (ast.Continue, ast.Break))]
+                rep.check(not jumps, "DICT-2", "%s: loop over %s visits every item" % (fx.name, unparse(lp.iter if isinstance(lp, ast.For) else lp.test)[:30]), "no continue / break",
+                          "%s skips items of `%s` with %s: such an item never becomes an element, so _convert cannot log that it was omitted"
+                          % (fx.name, unparse(lp.iter if isinstance(lp, ast.For) else lp.test)[:40], type(jumps[0]).__name__.lower() if jumps else ""),
+                          where(fx, jumps[0]) if jumps else fx.where,
+                          witness="a JSON source with a Property without name: dropped without 'Omitted Property without name tag'")
+    rep.floor("DICT-2", n_loops, 3, "loops of the dictionary front end")
     rep.assume("lxml element iteration tolerates removal of the current child (probed: the next sibling is pre-fetched)")
 
 
